@@ -262,7 +262,7 @@ SCENARIOS = {
                   named=["AR-PACKAGE", "SYSTEM-SIGNAL", "I-SIGNAL"], names=["a", "s", "b"], pos=[0, 1], wild=True),
     "refs": dict(fix="F2", depth=2, tdepth=2, ops=["Rename", "Move", "Remove", "SetRef", "SetText", "RemoveText", "CreateNamed"], elems=[],
                  named=["SYSTEM-SIGNAL"], names=["s", "s1", "b", "p"], pos=[], wild=False),
-    "files": dict(fix="F3", depth=2, tdepth=3, ops=["CreateFile", "RemoveFile", "AddToFile", "RemoveFromFile", "Remove", "CreateNamed", "CreateSub", "Move", "Copy"],
+    "files": dict(fix="F3", depth=2, tdepth=2, ops=["CreateFile", "RemoveFile", "AddToFile", "RemoveFromFile", "Remove", "CreateNamed", "CreateSub", "Move", "Copy"],
                   elems=["ELEMENTS"], named=["AR-PACKAGE", "SYSTEM-SIGNAL"], names=["a", "d"], pos=[], wild=False, files=["f1", "f3"], vers=["V50"], ser=True),
     "merge": dict(fix="F5", depth=3, tdepth=3, ops=["Load", "CreateFile", "AddToFile", "RemoveFromFile", "RemoveFile", "Duplicate"], elems=[], named=[], names=["a"],
                   pos=[], wild=False, files=["f3"], vers=["V50"], docs=["pb", "pe", "pr", "pn", "po", "px", "pf", "cd", "cf", "dupk", "pv", "mt", "k1", "k2", "p2", "pi1", "pi2"], ser=True),
